@@ -1,6 +1,6 @@
 (* C01  Built message's envelope carries exactly the sender and recipients given.  Statements only. *)
 From LV Require Import Base.Bytes Base.Utf8 Base.Res Model.Address Model.Mailbox Model.Builder Spec.Envelope
-  Proofs.BuilderProofs.
+  Proofs.BuilderProofs Proofs.MailboxProofs Proofs.MailboxListProofs.
 
 (* For EVERY sequence of builder calls (any number of from / sender / to / cc / bcc / reply_to /
    envelope / keep_bcc in any order) whose mailboxes belong to a class P that survives
@@ -23,6 +23,22 @@ Theorem C01_envelope :
   build_ops alnum idna ip_ok ops = spec_build ops.
 Proof. intros alnum idna ip_ok P H1 H2 ops H. exact (build_eq_spec alnum idna ip_ok P H1 H2 ops H). Qed.
 
+(* The premises discharged for a concrete class: mailboxes without display name whose address is
+   run(.run)*@run(.run)* over atom characters (any number and length of runs) and is accepted unchanged by
+   the address constructor under the given oracles.  For every call sequence over such mailboxes the built
+   envelope is exactly the specified one - no premise about Display / FromStr left. *)
+Theorem C01_envelope_bare_addresses :
+  forall (alnum : N -> bool) (idna : ustr -> option ustr) (ip_ok : ustr -> bool) (ops : list bop),
+  Forall (op_ok (Pbare alnum idna ip_ok)) ops ->
+  build_ops alnum idna ip_ok ops = spec_build ops.
+Proof.
+  intros alnum idna ip_ok ops H. apply (build_eq_spec alnum idna ip_ok (Pbare alnum idna ip_ok)); [| |exact H].
+  - intros L F. destruct (list_roundtrip alnum idna ip_ok L F) as (v & Hv & L' & HL & ->). exists v. split; [exact Hv|].
+    exists L. split; [exact HL|]. split; [reflexivity|exact F].
+  - intros m Pm. destruct (one_roundtrip alnum idna ip_ok m Pm) as (v & Hv & m' & Hm & ->). exists v. split; [exact Hv|].
+    exists m. split; [exact Hm|reflexivity].
+Qed.
+
 (* the premises cannot simply be dropped: findings F1 (panic) and F2 (silent replacement), for any oracles *)
 Theorem C01_refuted_crlf_panics : forall alnum idna ip_ok,
   build_ops alnum idna ip_ok [BList HFrom (mkMb (Some [97; 10; 98]) [97; 64; 120])] = Panic.
@@ -33,5 +49,20 @@ Example C01_spec_example :
   = Ok (mkEnv (Some [102]) [[116]; [99]; [104]], false).
 Proof. reflexivity. Qed.
 
+(* non-vacuity of the class: under ASCII oracles kayo@ex.com is in it, and a call list over it is specified *)
+Example C01_bare_example :
+  let alnum := is_alnum_ascii in let idna := (fun d : ustr => Some d) in let ip_ok := (fun _ : ustr => false) in
+  let a := mkSA [107;97;121;111] [] [101;120] [[99;111;109]] in
+  bare_ok alnum idna ip_ok a /\
+  build_ops alnum idna ip_ok [BList HFrom (mb_of a); BList HTo (mb_of a); BList HCc (mb_of a)] =
+    Ok (mkEnv (Some (sa_str a)) [sa_str a; sa_str a], false).
+Proof.
+  cbn zeta. split.
+  - split; [repeat split; try discriminate; try reflexivity; repeat constructor; discriminate|].
+    split; [reflexivity|]. unfold addr_accepted. eexists. split; vm_compute; reflexivity.
+  - vm_compute. reflexivity.
+Qed.
+
 Print Assumptions C01_envelope.
+Print Assumptions C01_envelope_bare_addresses.
 Print Assumptions C01_refuted_crlf_panics.
